@@ -48,6 +48,12 @@ ASSUMPTIONS = [
     "that the order in which single-file EXTERNAL updates are applied does not matter is decided by the oracle",
     "edits made while a build phase is running are restricted to static files, as the property states",
     "the environment of a watching director is fixed when it starts (environment edits are not part of the property)",
+    "what an INCOMPLETE build phase leaves behind depends on the order in which steps were dispatched, which differs "
+    "between a watch rebuild and a restart (a restart has extra startup work): the oracle runs with --keep-going, compares "
+    "outputs, full graph and return code after every complete phase, and return code plus the states of the attached "
+    "nodes after an incomplete one; a phase that drained is compared after the following (settling) rebuild",
+    "edits during a build phase are made in the first phase only, where both directors execute the same code path with "
+    "the same schedule, so that the edit falls at the same logical moment in both",
 ]
 SCOPES = {"startup", "propagation"}
 
